@@ -175,7 +175,8 @@ def run_check(prop, tier, seed, args):
             "lean_build_s": audit.get("build_s"),
             "notes": ctx.notes,
         }
-        common.write_json(os.path.join(common.EVID, "%s.json" % prop), ev)
+        if not args.no_build:          # the debug mode proves nothing: it leaves the evidence of the last full run in place
+            common.write_json(os.path.join(common.EVID, "%s.json" % prop), ev)
         for l in out_lines:
             print(l)
         print("%s %s tier=%s seed=%d: theorems %d/%d, cases %d (distinct non-trivial %d), violations %d, %.1fs"
